@@ -25,8 +25,15 @@ import (
 	"github.com/jcmoraisjr/haproxy-ingress/pkg/utils"
 )
 
-// RepoRoot is where the implementation lives (module replace target).
-const RepoRoot = "/repo"
+// RepoRoot is where the implementation lives (module replace target); the templates are
+// read from its rootfs.  VERIF_REPO_ROOT only serves the mutation experiments, which run on
+// a private copy of the tree.
+var RepoRoot = func() string {
+	if v := os.Getenv("VERIF_REPO_ROOT"); v != "" {
+		return v
+	}
+	return "/repo"
+}()
 
 // AnnPrefix is the annotation prefix used by every generated object.
 const AnnPrefix = "haproxy-ingress.github.io"
